@@ -233,6 +233,49 @@ Example ser_fixup_limited_to_comma :
   double_text false (render_with 183 g_1_5) <> double_text false (render_with CH_DOT g_1_5).
 Proof. vm_compute. discriminate. Qed.
 
+(* ---- concurrency: every job's output is ser_spec of that job — whatever locales the threads
+   run under, whatever the interleaving, whatever any thread does to the shared lconv cell *)
+Definition jobs_one_conversion (sch : list sched_ev) : Prop := Forall (fun j => one_conversion (j_txt j)) (jobs_of sch).
+
+Lemma conc_fold : forall tl sch cell outs,
+  jobs_one_conversion sch ->
+  snd (fold_left (conc_step tl) sch (cell, outs)) = outs ++ map ser_spec (jobs_of sch).
+Proof.
+  induction sch as [|e t IH]; intros cell outs H; simpl.
+  - rewrite app_nil_r. reflexivity.
+  - destruct e as [j|th]; simpl.
+    + inversion H as [|? ? Hj Ht]; subst.
+      rewrite (IH cell _ Ht). rewrite <- app_assoc. simpl.
+      unfold ser_spec at 2. rewrite (ser_fmt_locale_indep (j_txt j) (j_fmt j) (j_class j) (j_nozero j) Hj (tl (j_thread j))).
+      reflexivity.
+    + apply IH. exact H.
+Qed.
+
+Theorem ser_concurrent_indep : forall (tl : nat -> numloc) (cell0 : byte) (sch : list sched_ev),
+  jobs_one_conversion sch ->
+  conc_run tl cell0 sch = map ser_spec (jobs_of sch).
+Proof. intros. unfold conc_run. rewrite conc_fold; auto. Qed.
+
+(* non-vacuity: thread 0 under the comma locale, thread 1 under C, clobbers in between *)
+Definition job_1_5 (t : nat) := mk_job t None DFin false (txt_of [49] [53]).
+Example ser_concurrent_example :
+  let tl := fun t => match t with O => NumComma | _ => NumC end in
+  conc_run tl 0 [SClobber 0; SJob (job_1_5 0); SClobber 1; SJob (job_1_5 0); SJob (job_1_5 1); SClobber 0; SJob (job_1_5 1)]
+  = [[49; 46; 53]; [49; 46; 53]; [49; 46; 53]; [49; 46; 53]].
+Proof. vm_compute. reflexivity. Qed.
+
+(* the contrast, with its witness: a serializer that takes the separator from the shared cell is
+   correct as long as the cell holds the caller's own separator (single-threaded use), and wrong
+   as soon as another thread's localeconv() got in between: the comma thread prints "1,5.0", the C
+   thread appends a spurious ".0" to "1e-07"-like texts or leaves ... *)
+Example cell_variant_interference :
+  double_text_cell CH_COMMA true false [49; 44; 53] = [49; 46; 53] /\
+  double_text_cell CH_DOT true false [49; 46; 53] = [49; 46; 53] /\
+  double_text_cell CH_DOT true false [49; 44; 53] = [49; 44; 53; 46; 48] /\
+  double_text_cell CH_COMMA true false [51; 46; 49; 52] = [51; 46; 49; 52] /\
+  double_text_cell CH_DOT true false [51; 44; 49; 52] = [51; 44; 49; 52; 46; 48].
+Proof. vm_compute. repeat split; reflexivity. Qed.
+
 (* ===================================================================== Part 2: protocol *)
 
 Lemma handle_eqb_eq : forall a b, handle_eqb a b = true -> a = b.
